@@ -300,16 +300,16 @@ CoxReflWords == {u \o <<s>> \o Rev(u) : u \in {w \in SeqsOver(CoxGens, 0) \cup S
 \* words of even length: determinant +1, never a reflection
 CoxEvenWords == {w \in SeqsOver(CoxGens, 2) \cup SeqsOver(CoxGens, 4) : Reduced1(w)} \cup {<<>>}
 \* label of the pair {i, j}: triangle group (p,q,r) has m12 = p, m23 = q, m31 = r; a linear diagram [p,q,r] has
-\* m(i,i+1) = m[i] and 2 otherwise; 0 stands for infinity
+\* m(i,i+1) = m[i] and 2 otherwise; zero or negative stands for infinity
 CoxLabel(m, i, j) == LET lo == IF i < j THEN i ELSE j
                          hi == IF i < j THEN j ELSE i
                      IN IF N = 2 THEN (IF <<lo, hi>> = <<1, 2>> THEN m[1] ELSE IF <<lo, hi>> = <<2, 3>> THEN m[2] ELSE m[3])
                         ELSE (IF hi = lo + 1 THEN m[lo] ELSE 2)
 CoxPairs(m) == {[i |-> p[1], j |-> p[2], label |-> CoxLabel(m, p[1], p[2]),
-                 type |-> IF CoxLabel(m, p[1], p[2]) = 0 THEN "parabolic" ELSE "elliptic"]
+                 type |-> IF CoxLabel(m, p[1], p[2]) <= 0 THEN "parabolic" ELSE "elliptic"]
                 : p \in {q \in CoxGens \X CoxGens : q[1] < q[2]}}
 \* hyperbolic triangle groups: 1/p + 1/q + 1/r < 1 (0 = infinity contributes nothing)
-TriHyperbolic(m) == RLess(RSum([i \in 1..3 |-> IF m[i] = 0 THEN RZero ELSE R(1, m[i])]), ROne)
+TriHyperbolic(m) == RLess(RSum([i \in 1..3 |-> IF m[i] <= 0 THEN RZero ELSE R(1, m[i])]), ROne)
 CoxObs == [groups |-> {[m |-> m, pairs |-> CoxPairs(m)] : m \in CoxGroups},
            reflwords |-> CoxReflWords, evenwords |-> CoxEvenWords,
            loxword |-> IF N = 2 THEN <<1, 2, 3, 1, 2, 3>> ELSE <<>>]
